@@ -39,6 +39,7 @@ type Report struct {
 	Exhaustive   bool           `json:"exhaustive"`
 	Notes        []string       `json:"notes"`
 	seen         map[string]bool
+	perClass     map[string]int
 }
 
 func (r *Report) Count(key string) {
@@ -65,8 +66,14 @@ func (r *Report) Sample(s any) {
 	}
 }
 
+// Violate records a violation. The list is capped PER CLASS (400 each): violations of a known-finding or
+// outside-domain class cannot crowd out unclassed ones.
 func (r *Report) Violate(v Violation) {
-	if len(r.Violations) < 400 {
+	if r.perClass == nil {
+		r.perClass = map[string]int{}
+	}
+	r.perClass[v.Class]++
+	if r.perClass[v.Class] <= 400 {
 		r.Violations = append(r.Violations, v)
 	}
 }
